@@ -70,9 +70,21 @@ func main() {
 			if hasSignal {
 				ast.Inspect(f, func(nd ast.Node) bool {
 					if call, ok := nd.(*ast.CallExpr); ok {
+						// close(quit...) -> signal.CloseQuit(quit...): only the channel that ends the handler
 						if id, ok := call.Fun.(*ast.Ident); ok && id.Name == "close" && len(call.Args) == 1 {
-							call.Fun = &ast.SelectorExpr{X: ast.NewIdent("signal"), Sel: ast.NewIdent("CloseQuit")}
-							closes++
+							if a, ok := call.Args[0].(*ast.Ident); ok && strings.Contains(strings.ToLower(a.Name), "quit") {
+								call.Fun = &ast.SelectorExpr{X: ast.NewIdent("signal"), Sel: ast.NewIdent("CloseQuit")}
+								closes++
+							}
+						}
+					}
+					// a bare `<-done` (main waits for the handler goroutine) -> signal.WaitDone(done)
+					if es, ok := nd.(*ast.ExprStmt); ok {
+						if u, ok := es.X.(*ast.UnaryExpr); ok && u.Op == token.ARROW {
+							if a, ok := u.X.(*ast.Ident); ok && a.Name == "done" {
+								es.X = &ast.CallExpr{Fun: &ast.SelectorExpr{X: ast.NewIdent("signal"), Sel: ast.NewIdent("WaitDone")}, Args: []ast.Expr{a}}
+								closes++
+							}
 						}
 					}
 					return true
